@@ -198,7 +198,7 @@ class Report:
         viol = []; inconclusive = []; known_hit = []
         for o in self.obs:
             if o.get('unknown') or o.get('witness_fail') or o.get('errors'):
-                inconclusive.append(f"{o['oid']}: unknown={o.get('unknown')} vacuous={o.get('witness_fail')} errors={o.get('errors')}")
+                inconclusive.append(f"{o['oid']}: unknown={o.get('unknown')} vacuous={o.get('witness_fail')} errors={[str(e)[:300] for e in o.get('errors', [])]}")
             seen_roles = set()
             for c in o.get('cex', []):
                 key = (c['ob'], c['role'])
@@ -273,7 +273,7 @@ class Report:
             flag = 'ok' if not (o.get('cex') or o.get('unknown') or o.get('witness_fail') or o.get('errors')) else ('CEX' if o.get('cex') else 'INCONCLUSIVE')
             print(f"   {o['oid']:10s} {flag:12s} q={o['queries']:4d} unsat={o['unsat']:4d} sat={o['sat']:3d} unk={o['unknown']:2d} wit={o['witness_sat']:3d} paths={o.get('paths', 0):5d} {o['solver_s']:7.2f}s  {o['desc'][:90]}")
             for n in o.get('notes', [])[:6]: print('        note:', n)
-            for n in o.get('errors', [])[:6]: print('        ERROR:', n)
+            for n in o.get('errors', [])[:6]: print('        ERROR:', str(n)[:1200])
         if vlines:
             return 1
         if inconclusive:
